@@ -492,15 +492,20 @@ func (t *Topic) handleUATimerEvent(currentUA string) {
 }
 
 func (t *Topic) handleTopicTimeout(hub *Hub, currentUA string, uaTimer, defrNotifTimer *time.Timer) {
-	// Topic timeout
-	hub.unreg <- &topicUnreg{rcptTo: t.name}
+	// Topic timeout. Accept no sessions from now on: a {sub} which reaches the hub or the topic
+	// before the hub has unregistered the topic is answered 'locked' instead of being attached to
+	// a topic which is about to exit.
+	t.markDeleted()
 	defrNotifTimer.Stop()
+	// Announce 'off' before the topic is unregistered: a new instance of the topic can be loaded
+	// as soon as it is, and its 'on' must not be overtaken by this 'off'.
 	if t.cat == types.TopicCatMe {
 		uaTimer.Stop()
 		t.presUsersOfInterest("off", currentUA)
 	} else if t.cat == types.TopicCatGrp {
 		t.presSubsOffline("off", nilPresParams, nilPresFilters, nilPresFilters, "", false)
 	}
+	hub.unreg <- &topicUnreg{rcptTo: t.name}
 }
 
 func (t *Topic) handleTopicTermination(sd *shutDown) {
